@@ -28,6 +28,10 @@ type Point struct {
 	// alternative i costs.
 	Cost  []uint8
 	Label string
+	// StateKey hashes the happens-before state at this point (before the choice);
+	// AltKeys[i] identifies alternative i independently of enumeration order.
+	StateKey uint64
+	AltKeys  []uint64
 }
 
 type Thread struct {
@@ -44,8 +48,14 @@ type Thread struct {
 	// Spawner is the thread that created this one (-1 for the root).
 	Spawner int
 	Site    string // spawn site
-	// hb is the happens-before hash of the thread (for state caching)
-	hb uint64
+	// hb is the happens-before hash of the thread (for state caching); path is a
+	// schedule-independent identity (spawner's path + spawn index).
+	hb       uint64
+	path     uint64
+	children uint64
+	// LastCommStep is the step at which this thread's most recent channel operation took
+	// effect: the partner's step if a partner completed it while this thread was parked.
+	LastCommStep int
 }
 
 type timer struct {
@@ -54,6 +64,7 @@ type timer struct {
 	fn     func()
 	active bool
 	name   string
+	id     uint64
 }
 
 // Exec is one controlled execution.
@@ -80,6 +91,11 @@ type Exec struct {
 	AutoTimers   bool          // fire the earliest timer when nothing else is enabled
 	TimerFires   int
 
+	// NoBranch makes the scheduler deterministic (first enabled thread, running thread
+	// preferred) without recording choice points: used by harnesses for set-up and
+	// tear-down phases whose interleavings are not the subject of the scenario.
+	NoBranch bool
+
 	NumWorkers int // value returned for runtime.GOMAXPROCS(0)
 	MapReverse bool
 
@@ -87,9 +103,14 @@ type Exec struct {
 	Log    []string
 	Failed []string // internal errors (divergence etc.)
 
-	nextObj  int
-	panicVal any
-	panicStk string
+	nextObj        int
+	pendingAltKeys []uint64
+	cells          map[uintptr]*uint64 // hb cells of address-identified objects (atomics)
+	CancelCell     uint64              // hb cell shared by every context cancellation
+	RandCell       uint64
+	timerCell      uint64
+	panicVal       any
+	panicStk       string
 
 	// user data (harness ledger)
 	Data any
@@ -131,6 +152,54 @@ func (x *Exec) newThread(name string, body func(), spawner int, site string) *Th
 	t := &Thread{ID: len(x.Threads), Name: name, wake: make(chan struct{}, 1), body: body, exited: make(chan struct{}), Spawner: spawner, Site: site}
 	x.Threads = append(x.Threads, t)
 	return t
+}
+
+// Touch records that the running thread performed an operation (code) on the shared
+// object whose happens-before cell is cell: both absorb each other's history.
+func (x *Exec) Touch(cell *uint64, code uint64) {
+	t := x.cur
+	h := mix(mix(t.hb, *cell), code)
+	t.hb = h
+	*cell = h
+}
+
+// HB returns the running thread's history hash.
+func (x *Exec) HB() uint64 { return x.cur.hb }
+
+// Absorb mixes a value into the running thread's history (results of reads, choices).
+func (x *Exec) Absorb(v uint64) { x.cur.hb = mix(x.cur.hb, v) }
+
+// CellFor returns the hb cell of an address-identified object.
+func (x *Exec) CellFor(p uintptr) *uint64 {
+	if x.cells == nil {
+		x.cells = map[uintptr]*uint64{}
+	}
+	c, ok := x.cells[p]
+	if !ok {
+		c = new(uint64)
+		x.cells[p] = c
+	}
+	return c
+}
+
+// stateKey hashes every thread's history, the clock and the pending timers.
+func (x *Exec) stateKey() uint64 {
+	var acc uint64
+	for _, t := range x.Threads {
+		v := mix(t.path, t.hb)
+		if t.Done {
+			v = mix(v, 0xd0e)
+		}
+		acc += mix(v, 0x51ed) // commutative combination: thread order is irrelevant
+	}
+	acc = mix(acc, uint64(x.Now))
+	var tacc uint64
+	for _, tm := range x.timers {
+		if tm.active {
+			tacc += mix(tm.id, uint64(tm.when))
+		}
+	}
+	return mix(acc, tacc)
 }
 
 func (x *Exec) start(t *Thread) {
@@ -190,7 +259,11 @@ func Go(name string, fn func()) {
 		site = fmt.Sprintf("%s:%d", file, line)
 	}
 	t := x.newThread(name, fn, x.cur.ID, site)
-	t.hb = mix(x.cur.hb, uint64(t.ID)+0x9e3779b97f4a7c15)
+	p := x.cur
+	p.children++
+	t.path = mix(p.path, p.children)
+	t.hb = mix(p.hb, 0x5bd1e995)
+	p.hb = mix(p.hb, 0x60+p.children)
 	x.start(t)
 }
 
@@ -321,7 +394,7 @@ func (x *Exec) pickNext(running *Thread) *Thread {
 			}
 			return nil
 		}
-		if len(en) == 1 {
+		if len(en) == 1 || x.NoBranch {
 			return en[0]
 		}
 		cost := make([]uint8, len(en))
@@ -330,6 +403,11 @@ func (x *Exec) pickNext(running *Thread) *Thread {
 				cost[i] = 1
 			}
 		}
+		keys := make([]uint64, len(en))
+		for i, t := range en {
+			keys[i] = t.path
+		}
+		x.pendingAltKeys = keys
 		c := x.choose(SchedPoint, len(en), cost, "")
 		return en[c]
 	}
@@ -344,7 +422,8 @@ func (x *Exec) choose(kind PointKind, n int, cost []uint8, label string) int {
 			panic(divergence{fmt.Sprintf("replay divergence at point %d: choice %d of %d (%s)", i, c, n, label)})
 		}
 	}
-	x.Points = append(x.Points, Point{Kind: kind, Width: n, Chosen: c, Cost: cost, Label: label})
+	x.Points = append(x.Points, Point{Kind: kind, Width: n, Chosen: c, Cost: cost, Label: label, StateKey: x.stateKey(), AltKeys: x.pendingAltKeys})
+	x.pendingAltKeys = nil
 	return c
 }
 
@@ -354,13 +433,35 @@ func (x *Exec) Choose(n int, cost []uint8, label string) int {
 	if x.aborting {
 		runtime.Goexit()
 	}
-	if n <= 1 {
+	if n <= 1 || x.NoBranch {
 		return 0
 	}
 	if cost == nil {
 		cost = make([]uint8, n)
 	}
-	return x.choose(EnvPoint, n, cost, label)
+	c := x.choose(EnvPoint, n, cost, label)
+	x.Absorb(0xc401ce00 + uint64(c))
+	return c
+}
+
+// Settle runs every other thread, deterministically and without recording choices, until
+// none of them can make progress; then the caller continues with branching restored.
+func (x *Exec) Settle() {
+	if x.aborting {
+		return
+	}
+	me := x.cur
+	old := x.NoBranch
+	x.NoBranch = true
+	x.Yield(func() bool {
+		for _, t := range x.Threads {
+			if t != me && t.isEnabled() {
+				return false
+			}
+		}
+		return true
+	}, "settle")
+	x.NoBranch = old
 }
 
 // Choices returns the choice list of this execution (a replayable schedule).
@@ -401,6 +502,10 @@ func (x *Exec) addTimer(d time.Duration, name string, fn func()) *timer {
 	}
 	x.timerSeq++
 	tm := &timer{when: x.Now + d, seq: x.timerSeq, fn: fn, active: true, name: name}
+	if x.cur != nil {
+		x.Touch(&x.timerCell, 0x71)
+		tm.id = x.cur.hb
+	}
 	x.timers = append(x.timers, tm)
 	return tm
 }
@@ -458,6 +563,8 @@ func (x *Exec) fire(tm *timer) {
 	tm.active = false
 	x.TimerFires++
 	t := x.newThread("timer:"+tm.name, tm.fn, -1, "timer")
+	t.path = mix(tm.id, 0xf19e)
+	t.hb = mix(tm.id, uint64(tm.when))
 	x.start(t)
 }
 
